@@ -372,8 +372,9 @@ def decide(prop_id: str, tier: str, seed: int) -> int:
         "wall_s": round(time.time() - t0, 2),
         "violations": n_viol,
     }
-    (VERIF / "evidence").mkdir(exist_ok=True)
-    (VERIF / "evidence" / f"{prop_id}.json").write_text(json.dumps(ev, indent=1, default=str))
+    evdir = Path(os.environ.get("VERIF_EVIDENCE_DIR") or (VERIF / "evidence"))  # scratch runs (seeded changes, mutations) write elsewhere
+    evdir.mkdir(exist_ok=True, parents=True)
+    (evdir / f"{prop_id}.json").write_text(json.dumps(ev, indent=1, default=str))
     log(f"[{prop_id}] tier={tier} seed={seed} theorems={len(thms)} discharged={discharged} "
         f"evals={ctx.evaluations} distinct={len(ctx.distinct)} disagreements={len(ctx.disagreements)} "
         f"broken={len(broken)} wall={time.time()-t0:.1f}s -> exit {rc_final}")
